@@ -37,7 +37,8 @@ def render(idx, letters, nd):
     return sse.render(idx, [nd] + list(letters)).astype(np.float64)
 
 
-ENCODINGS = ["below", "inside", "above", "zero", "nan", "+inf", "-inf"]
+# the last two mark the gaps of ONE series in two ways at once: alternately with the finite marker and with NaN / +inf
+ENCODINGS = ["below", "inside", "above", "zero", "nan", "+inf", "-inf", "mixed nan", "mixed inf"]
 
 
 def placeholder(enc, letters):
@@ -64,6 +65,14 @@ def encode(idx, letters, enc, nodata_for_special=-3000.0):
     if enc in ("below", "inside", "above", "zero"):
         nd = placeholder(enc, letters)
         return render(idx, letters, nd), nd
+    if enc.startswith("mixed"):
+        special = np.nan if enc.endswith("nan") else np.inf
+        y = render(idx, letters, nodata_for_special)
+        gap = idx == 0
+        # every second gap cell of a series (counted along the series) carries the special value
+        order = np.cumsum(gap, axis=1)
+        y[gap & (order % 2 == 0)] = special
+        return y, nodata_for_special
     special = {"nan": np.nan, "+inf": np.inf, "-inf": -np.inf}[enc]
     y = render(idx, letters, 0.0)
     y[idx == 0] = special
